@@ -16,7 +16,7 @@ import (
 	"github.com/pion/webrtc/v4/internal/verif/vsched"
 )
 
-var c04Alphabet = []string{"AT", "ATv", "RT", "TK", "DC", "XO", "PA", "PO", "XA", "CL", "RJ"}
+var c04Alphabet = []string{"AT", "ATv", "RT", "TK", "DC", "XO", "PA", "PO", "XA", "CL", "RJ", "XP", "PP"}
 
 type c04Fire struct {
 	AfterStep int    `json:"after_step"` // index of the last completed call when the handler ran (-1: during setup)
@@ -62,6 +62,7 @@ func c04Run(t *testing.T, hist []string) (*c04Obs, *vsched.Result) {
 		vsched.Quiesce()
 		closed := false
 		ntrack := 0
+		var peerAnswer *SessionDescription // the peer's final answer while X holds it as a pranswer only
 		for i, op := range hist {
 			st := c04Step{Op: op}
 			before := x.SignalingState()
@@ -107,7 +108,46 @@ func c04Run(t *testing.T, hist []string) (*c04Obs, *vsched.Result) {
 					st.Created = true
 					err = x.SetLocalDescription(o)
 				}
+			case "XP":
+				// X applies its answer as a PROVISIONAL answer: have-remote-offer -> have-local-pranswer
+				if before != SignalingStateHaveRemoteOffer || closed {
+					valid = false
+
+					break
+				}
+				var a SessionDescription
+				if a, err = x.CreateAnswer(nil); err == nil {
+					st.Created = true
+					a.Type = SDPTypePranswer
+					err = x.SetLocalDescription(a)
+				}
+			case "PP":
+				// the peer's answer reaches X as a provisional answer first: have-local-offer -> have-remote-pranswer
+				if before != SignalingStateHaveLocalOffer || closed {
+					valid = false
+
+					break
+				}
+				if err = p.SetRemoteDescription(*x.PendingLocalDescription()); err == nil {
+					var a SessionDescription
+					if a, err = p.CreateAnswer(nil); err == nil {
+						if err = p.SetLocalDescription(a); err == nil {
+							peerAnswer = &a
+							pr := a
+							pr.Type = SDPTypePranswer
+							err = x.SetRemoteDescription(pr)
+						}
+					}
+				}
 			case "PA":
+				if before == SignalingStateHaveRemotePranswer && !closed && peerAnswer != nil {
+					// the final answer after the provisional one
+					err = x.SetRemoteDescription(*peerAnswer)
+					st.Completed = err == nil
+					peerAnswer = nil
+
+					break
+				}
 				if before != SignalingStateHaveLocalOffer || closed {
 					valid = false
 
@@ -135,7 +175,7 @@ func c04Run(t *testing.T, hist []string) (*c04Obs, *vsched.Result) {
 					}
 				}
 			case "XA":
-				if before != SignalingStateHaveRemoteOffer || closed {
+				if (before != SignalingStateHaveRemoteOffer && before != SignalingStateHaveLocalPranswer) || closed {
 					valid = false
 
 					break
